@@ -30,7 +30,7 @@ def cpu():
 def run(rep):
     t0, c0 = time.time(), cpu()
     # 1. model-check the laws of RegexSem while TLC enumerates the pattern space
-    res = tlc.run(rep.pid, "C09", ENUM_CFG, env={"TIER": rep.tier}, timeout=2400, tag="enum")
+    res = tlc.run(rep.pid, "C09", ENUM_CFG, env={"TIER": rep.tier}, timeout=7200, tag="enum")
     rep.add_tlc("C09.Enum+Laws(RegexSem)", res)
     subsets, pats, seen = {}, [], set()
     for r in res.records:
@@ -75,7 +75,7 @@ def judge_patterns(rep, pats, subsets, tag):
             c["subs"] = p["subs"]
         cases.append(c)
     t1, c1 = time.time(), cpu()
-    results = engine.run_cases(rep.pid, cases, driver="checks.c09_driver:pattern_driver", tag="eng_" + tag,
+    results = engine.run_cases(rep.pid, cases, driver="checks.c09_driver:pattern_driver", tag="eng_" + tag, timeout=14400,
                                extra_env={"C09_SUBJECTS": spath})
     rep.notes["engine_wall_cpu_s_" + tag] = [round(time.time() - t1, 1), round(cpu() - c1, 1)]
     byid = {p["id"]: p for p in pats}
@@ -92,7 +92,7 @@ def judge_patterns(rep, pats, subsets, tag):
         if tag == "exh":
             raise Machinery("%d enumerated patterns exhausted the step budget on short subjects" % over)
     t2, c2 = time.time(), cpu()
-    verdicts, st, tr, wall = tlc.judge(rep.pid, "C09", recs, JUDGE_CFG, tag="judge_" + tag, timeout=3000)
+    verdicts, st, tr, wall = tlc.judge(rep.pid, "C09", recs, JUDGE_CFG, tag="judge_" + tag, timeout=14400)
     rep.notes["judge_wall_cpu_s_" + tag] = [round(time.time() - t2, 1), round(cpu() - c2, 1)]
     got = {v["id"]: v for v in verdicts}
     if len(got) != len(recs):
@@ -230,7 +230,7 @@ def random_part(rep, subsets):
         fl = {"i": rnd.random() < 0.3, "m": rnd.random() < 0.25, "s": rnd.random() < 0.2}
         asts.append({"id": i, "ast": a, "fl": fl, "sl": gen_subjects(rnd, a, 16)})
     # the spec renders (and parses back) every random tree: Python never produces pattern text
-    rendered, st, tr, wall = tlc.judge(rep.pid, "C09", asts, RENDER_CFG, tag="render", timeout=1200)
+    rendered, st, tr, wall = tlc.judge(rep.pid, "C09", asts, RENDER_CFG, tag="render", timeout=7200)
     rep.add_judge(0, st, tr)
     src = {r["id"]: r for r in rendered}
     pats = []
